@@ -14,6 +14,10 @@ use std::panic::AssertUnwindSafe;
 use std::sync::Arc;
 
 pub struct Env {
+    /// Some(kept colours) if the graphs' unit sets are restricted to a subset of the valid colours
+    pub keep: Option<Vec<usize>>,
+    /// canonical-context BDD of the (restricted) unit set, built independently of the sanitiser
+    pub canon_unit: biodivine_lib_bdd::Bdd,
     /// contexts for k = 0..=6 (same network, same labels = none)
     pub ctxs: Vec<NetCtx>,
     pub plain_graph: SymbolicAsyncGraph,
@@ -22,14 +26,31 @@ pub struct Env {
 
 impl Env {
     pub fn new(b0: &Bound) -> Result<Env, String> {
+        Self::new_restricted(b0, None)
+    }
+
+    /// `keep`: restrict the unit set of every graph to these valid colours (SymbolicAsyncGraph::restrict).
+    pub fn new_restricted(b0: &Bound, keep: Option<Vec<usize>>) -> Result<Env, String> {
         let mut ctxs = vec![];
         for k in 0..=6u16 {
             let b = Bound::new_opt(&b0.name, &b0.spec, k, false).map_err(|e| format!("{e:?}"))?;
+            let b = match &keep {
+                Some(kp) => b.restrict_colours(kp),
+                None => b,
+            };
             ctxs.push(NetCtx::new(Arc::new(b), Labels::default(), "none"));
         }
         let plain_graph = SymbolicAsyncGraph::new(&b0.bn)?;
         let plain_ctx = SymbolicContext::new(&b0.bn)?;
-        Ok(Env { ctxs, plain_graph, plain_ctx })
+        let full = Bound::new_opt(&b0.name, &b0.spec, 0, false).map_err(|e| format!("{e:?}"))?;
+        let mut masks = vec![0; full.cols.len()];
+        for c in 0..full.cols.len() {
+            if keep.as_ref().map(|k| k.contains(&c)).unwrap_or(true) {
+                masks[c] = crate::bridge::full_mask(full.n);
+            }
+        }
+        let canon_unit = full.mk_set_in(&plain_graph, &masks).as_bdd().clone();
+        Ok(Env { keep, canon_unit, ctxs, plain_graph, plain_ctx })
     }
 }
 
@@ -49,6 +70,13 @@ pub fn check(env: &Env, f: &F) -> Vec<String> {
                 continue;
             }
         };
+        // inside the graph's (possibly restricted) unit set
+        if ctx.b.outside_unit(&dirty) {
+            bad.push(format!("k={k}: raw result is not a subset of the graph's unit set"));
+        }
+        if ctx.is_canonical_shape(&clean) && !clean.as_bdd().and_not(&env.canon_unit).is_false() {
+            bad.push(format!("k={k}: sanitised result contains (state, colour) pairs outside the graph's unit set{}", if env.keep.is_some() { " (the graph is restricted to a subset of the colours)" } else { "" }));
+        }
         // sanitised == raw, point-wise on every state x valid colour
         let dm = ctx.b.masks_of(&dirty);
         if !ctx.is_canonical_shape(&clean) {
@@ -94,7 +122,8 @@ pub fn check(env: &Env, f: &F) -> Vec<String> {
 pub fn replay(case: &Value) -> Option<String> {
     let spec = serde_json::from_value(case["net"].clone()).ok()?;
     let b = Bound::new("replay", &spec, 0).ok()?;
-    let env = Env::new(&b).ok()?;
+    let keep: Option<Vec<usize>> = case.get("keep").and_then(|k| serde_json::from_value(k.clone()).ok());
+    let env = Env::new_restricted(&b, keep).ok()?;
     let f: F = serde_json::from_value(case["formula"].clone()).ok()?;
     let bad = check(&env, &f);
     if bad.is_empty() {
@@ -133,8 +162,29 @@ pub fn run(tier: &str) -> Result<Report, String> {
         rep.add_count("formulae_x_networks", fs.len() as u64);
         rep.add_count("failing_formulae", bad.len() as u64);
         rep.violations.extend(bad.into_iter().take(40));
+        // the same on graphs whose unit set is restricted to every second valid colour
+        if b.cols.len() >= 2 {
+            let keep: Vec<usize> = (0..b.cols.len()).step_by(2).collect();
+            let env = Env::new_restricted(b, Some(keep.clone()))?;
+            let fs2: Vec<F> = fs.iter().filter(|f| f.size() <= 3 || f.qdepth() >= 2).take(if tier == "quick" { 3000 } else { 30000 }).cloned().collect();
+            let bad: Vec<Violation> = fs2
+                .par_iter()
+                .filter_map(|f| {
+                    let bad = check(&env, f);
+                    if bad.is_empty() {
+                        None
+                    } else {
+                        Some(Violation { case: json!({"kind": "sanitize", "net": b.spec, "aeon": b.aeon, "keep": keep, "formula": f, "text": f.show(&env.ctxs[0].user)}), what: format!("formula {} on {} restricted to colours {:?}: {}", f.show(&env.ctxs[0].user), b.name, keep, bad.join(" | ")), size: f.size() })
+                    }
+                })
+                .collect();
+            rep.evaluations += fs2.len() as u64 * 6;
+            rep.distinct_nontrivial += fs2.len() as u64;
+            rep.add_count("formulae_x_colour_restricted_networks", fs2.len() as u64);
+            rep.violations.extend(bad.into_iter().take(20));
+        }
     }
     rep.sample(json!({"network": "con2", "formula": "(!{x}: (3{y}: ((@{x}: (AX {y})) & (EF {x}))))", "k": [2, 3, 5], "check": "model_check_formula == model_check_formula_dirty point-wise; BDD over the variables of SymbolicContext::new; identical for all k; usable with SymbolicAsyncGraph::new"}));
-    rep.rule = format!("every closed plain formula with <= {m} nodes and every plain template formula on {which:?}, on graphs with k = d, d+1, d+3 spare variable sets (d = quantifier nesting depth): sanitised result == raw result on every state x valid colour == explicit-state oracle; expressed over exactly the variables of SymbolicContext::new(network); subset of and usable with SymbolicAsyncGraph::new(network); BDD-identical for all k. distinct_nontrivial = number of (formula, network) pairs");
+    rep.rule = format!("every closed plain formula with <= {m} nodes and every plain template formula on {which:?}, on graphs with k = d, d+1, d+3 spare variable sets (d = quantifier nesting depth): sanitised result == raw result on every state x valid colour == explicit-state oracle; expressed over exactly the variables of SymbolicContext::new(network); subset of and usable with SymbolicAsyncGraph::new(network); BDD-identical for all k; every multi-colour network additionally with the unit set of the graph restricted (SymbolicAsyncGraph::restrict) to every second valid colour, where raw and sanitised results must also stay inside the restricted unit set. distinct_nontrivial = number of (formula, network) pairs");
     Ok(rep)
 }
